@@ -12,6 +12,8 @@ VIS = "checks.c06:Vis"
 
 
 class Vis(MomentVisitor):
+    fault_twin = True      # also: the same answers through Solve with the last evaluation failing
+
     def begin(self, run, cfg):
         super().begin(run, cfg)
         ev = run.fresh_evolvent()
